@@ -51,6 +51,8 @@ type JobConfig struct {
 	Vector     []uint64 `json:"vector,omitempty"`
 	WitnessFor []string `json:"witness_for,omitempty"`
 	WallMs     int      `json:"wall_ms,omitempty"`
+	UnwindAssume []string `json:"unwind_assume,omitempty"` // loops of these functions: reaching the bound ends the path (assumption), e.g. probabilistic rejection sampling
+	BytesFull  bool     `json:"bytes_full,omitempty"` // assume DH results have no leading zero octet (C09 decides those cases)
 	MapOrders  bool     `json:"map_orders,omitempty"` // fork over map iteration orders (C14 / C20 determinism)
 }
 
@@ -85,6 +87,8 @@ type JobResult struct {
 	Outputs      []string     `json:"outputs,omitempty"`
 	MapOrders    string       `json:"map_orders,omitempty"`
 	CutMissing   []string     `json:"cut_missing,omitempty"`
+	Stopped      string       `json:"stopped,omitempty"`
+	UnwindAssumed int         `json:"unwind_assumed,omitempty"`
 }
 
 type Exec struct {
@@ -103,6 +107,7 @@ type Exec struct {
 	tokens  map[string]*Opaque
 	vecPos  int
 	deadline time.Time
+	started  time.Time
 }
 
 type pathEnd struct{ reason string }
@@ -606,6 +611,12 @@ func (ex *Exec) setByte(st *State, id int, idx *Term, v *Term) {
 }
 
 func (ex *Exec) checkWrite(st *State, o *Object) {
+	for _, f := range st.frecs {
+		if f.ids[o.id] {
+			site, _ := ex.repoSite(st)
+			f.dirty = append(f.dirty, site)
+		}
+	}
 	if !ex.cfg.Monitor || !st.initDone {
 		return
 	}
@@ -739,6 +750,12 @@ func (ex *Exec) jump(st *State, fr *Frame, to *ssa.BasicBlock) {
 			ex.cutAt(st, fr, from, to, key)
 		}
 		fr.visits[to.Index]++
+		for _, ua := range ex.cfg.UnwindAssume {
+			if ua == fr.fn.String() && fr.visits[to.Index] >= 2 {
+				ex.res.UnwindAssumed++
+				ex.endPath("unwind-assumed")
+			}
+		}
 		if fr.visits[to.Index] > ex.cfg.Unwind {
 			site := sitePos(ex.prog, firstPos(to))
 			msg := fmt.Sprintf("unwind:%s at %s (bound %d)", fr.fn.String(), site, ex.cfg.Unwind)
@@ -896,8 +913,15 @@ func (ex *Exec) step(st *State) {
 	}
 	st.steps++
 	ex.res.Steps++
-	if ex.res.Steps&1023 == 0 && !ex.deadline.IsZero() && time.Now().After(ex.deadline) {
-		panic(jobTimeout{})
+	if ex.res.Steps&1023 == 0 && !ex.deadline.IsZero() {
+		now := time.Now()
+		if now.After(ex.deadline) {
+			panic(jobTimeout{})
+		}
+		// a job that has already found a violation does not keep exploring for minutes
+		if len(ex.res.Violations) > 0 && now.After(ex.started.Add(20*time.Second)) {
+			panic(jobTimeout{})
+		}
 	}
 	if ex.cfg.MaxSteps > 0 && st.steps > ex.cfg.MaxSteps {
 		panic(engineErr("step bound exceeded on one path (%d)", ex.cfg.MaxSteps))
